@@ -39,6 +39,7 @@ type c20Op struct {
 	Remote    bool
 	WithTSA   bool // valid sign with a (valid) timestamp
 	EarlyHow  int  // 0 empty payload, 1 no signing time, 2 expiry before signing time, 3 nil signer, 4 no scheme, 5 payload not JSON (jws)
+	Reenter   bool // sign failing late: its remote signer re-entrantly signs the other request successfully on the same object
 	SignerHow int  // RSError / RSNoCerts / RSKeySpecError
 	LateHow   int  // 0 signing time before notBefore, 1 after notAfter
 	TSAHow    int  // 0 rejection, 1 connection error, 2 corrupted signature, 3 stub timestamper error
@@ -67,7 +68,8 @@ func genC20(t *Tape) *c20Scenario {
 		op.Req = t.Choose(2)
 		op.Remote = t.Bool(40)
 		op.WithTSA = t.Bool(20)
-		op.EarlyHow = t.Choose(6)
+		op.EarlyHow = t.Choose(7)
+		op.Reenter = t.Bool(15)
 		op.SignerHow = 1 + t.Choose(3)
 		op.LateHow = t.Choose(2)
 		op.TSAHow = t.Choose(4)
@@ -337,6 +339,9 @@ func (sc *c20Scenario) exec(obs *c20Obs, st *Stats) {
 		}
 		return false
 	}
+	var nestedOK bool
+	var nestedWant, nestedName string
+	var nestedBytes []byte
 	failedSince := "" // description of the failed sign(s) since the last success
 	var lastObs [2]string
 	var lastObsValid [2]bool
@@ -473,6 +478,10 @@ func (sc *c20Scenario) exec(obs *c20Obs, st *Stats) {
 				case 4:
 					sr.SigningScheme = ""
 					how = "no_scheme"
+				case 6:
+					sr.SigningTime = time.Now().Truncate(time.Second).Add(200 * time.Millisecond)
+					sr.Expiry = sr.SigningTime.Add(700 * time.Millisecond)
+					how = "expiry_within_same_second"
 				case 5:
 					if sc.Format == 0 {
 						sr.Payload.Content = []byte(`["not","an","object"]`)
@@ -486,6 +495,25 @@ func (sc *c20Scenario) exec(obs *c20Obs, st *Stats) {
 				ss.Mode = op.SignerHow
 				how = []string{"", "signer_error", "signer_no_certs", "signer_keyspec_error"}[op.SignerHow]
 			case EOSignFailLate:
+				if op.Reenter {
+					// the failing request uses a remote signer which, while it is
+					// being asked to sign, signs the OTHER request on this object
+					other := reqs[1-op.Req]
+					rs := &SimSigner{Chain: r.Chain}
+					sr.Signer = rs
+					ss = rs
+					rs.OnSign = func() {
+						osr, _, err := buildReq(other, false, false)
+						if err != nil {
+							return
+						}
+						nb, nerr := env.Sign(osr)
+						if nerr == nil {
+							nestedOK, nestedWant, nestedBytes = true, other.expect(osr.SigningTime, osr.Expiry), nb
+							nestedName = other.Name
+						}
+					}
+				}
 				if op.LateHow == 0 {
 					sr.SigningTime = r.Chain.Leaf.X.NotBefore.Add(-time.Hour)
 					how = "signing_time_before_not_before"
@@ -518,6 +546,8 @@ func (sc *c20Scenario) exec(obs *c20Obs, st *Stats) {
 			var b []byte
 			var serr error
 			panicked := false
+			nestedOK, nestedWant, nestedName = false, "", ""
+			nestedBytes = nil
 			func() {
 				defer func() {
 					if rec := recover(); rec != nil {
@@ -527,6 +557,9 @@ func (sc *c20Scenario) exec(obs *c20Obs, st *Stats) {
 				}()
 				b, serr = env.Sign(sr)
 			}()
+			if op.Kind == EOSignFailLate && op.Reenter {
+				how += "+reentrant_sign_" + nestedName
+			}
 			st.Probes["c20_"+envOpNames[op.Kind]]++
 			logf("op %d %s(%s,%s,remote=%v) -> err=%v bytes=%v", oi, envOpNames[op.Kind], r.Name, how, op.Remote, errKind(serr), b != nil)
 			if panicked {
@@ -578,6 +611,13 @@ func (sc *c20Scenario) exec(obs *c20Obs, st *Stats) {
 			obs.Fired++
 			if !hasEmpty() {
 				states = append(states, c20State{Kind: "empty", Label: "empty"})
+			}
+			if nestedOK {
+				// a successful signing happened in between: its content is a
+				// legitimate "previous state" too
+				_ = nestedBytes
+				states = append(states, c20State{Kind: "holds", Content: nestedWant, Label: "holds(" + nestedName + ", signed re-entrantly)"})
+				st.Probes["c20_reentrant_sign"]++
 			}
 		}
 	}
